@@ -2,6 +2,7 @@ SPECIFICATION SortSpec
 CONSTANTS
   Dedupe = TRUE
   N = 3
+  Full = TRUE
   NSort = 3
   SortAllNames = FALSE
 INVARIANT CycleIffCyclic
